@@ -471,3 +471,64 @@ Proof.
 Qed.
 
 End Final.
+
+(* ---- the repaired code: every guard is vacuous ---------------------------------------------- *)
+
+Lemma file_guard_repaired c cm : fx_filedb c = true -> cmd_file_guard c cm = true.
+Proof.
+  intros H. destruct cm; try reflexivity; cbn [cmd_file_guard].
+  - induction ops as [|o r IH]; cbn [forallb]; [reflexivity|]. rewrite IH.
+    destruct o; try reflexivity. unfold file_db_ok. rewrite H. reflexivity.
+  - unfold file_db_ok. rewrite H. reflexivity.
+Qed.
+
+Lemma token_guard_repaired c cm : fx_tokname c = true -> cmd_token_guard c cm = true.
+Proof. intros H. destruct cm; try reflexivity. cbn. rewrite H. reflexivity. Qed.
+
+Lemma node_guard_repaired c s cm :
+  fx_promote c = true -> fx_addws c = true -> fx_remove c = true -> cmd_node_guard c s cm = true.
+Proof. intros H1 H2 H3. destruct cm; try reflexivity; cbn; rewrite ?H1, ?H2, ?H3; reflexivity. Qed.
+
+Section Repaired.
+Variable c : cfg.
+Hypothesis Hf : fx_filedb c = true.
+Hypothesis Ht : fx_tokname c = true.
+
+Lemma hist_c22_of_no h s : hist_ok c no_guard s h = true -> hist_ok c (c22_guard c) s h = true.
+Proof.
+  apply hist_ok_weaken. intros s0 cm _. unfold c22_guard.
+  rewrite file_guard_repaired, token_guard_repaired by assumption. reflexivity.
+Qed.
+
+Lemma restore_repaired h : idx_incr 1 h -> hist_ok c no_guard empty_state h = true ->
+  restore (snapshot (run c empty_state h)) = run c empty_state h.
+Proof. intros Hi Hok. apply restore_guarded; [exact Hi|apply hist_c22_of_no; exact Hok]. Qed.
+
+Lemma prefix_replay_repaired p q : idx_incr 1 (p ++ q) -> hist_ok c no_guard empty_state (p ++ q) = true ->
+  run c (restore (snapshot (run c empty_state p))) q = run c empty_state (p ++ q).
+Proof. intros Hi Hok. apply prefix_replay; [exact Hi|apply hist_c22_of_no; exact Hok]. Qed.
+
+Lemma indexes_repaired h : idx_incr 1 h -> hist_ok c no_guard empty_state h = true ->
+  indexes_agree (run c empty_state h) = true.
+Proof.
+  intros Hi Hok. apply indexes_guarded; [exact Hi|]. eapply hist_ok_weaken; [|exact Hok].
+  intros s0 cm _. apply file_guard_repaired. exact Hf.
+Qed.
+End Repaired.
+
+Section RepairedNode.
+Variable c : cfg.
+Hypothesis H1 : fx_promote c = true.
+Hypothesis H2 : fx_addws c = true.
+Hypothesis H3 : fx_remove c = true.
+
+Lemma writer_repaired h : hist_ok c no_guard empty_state h = true -> writer_consistent (run c empty_state h) = true.
+Proof.
+  intros Hok. apply writer_guarded. eapply hist_ok_weaken; [|exact Hok].
+  intros s0 cm _. apply node_guard_repaired; assumption.
+Qed.
+
+Lemma readd_repaired s n old : get (KS (n_id n)) (nodes s) = Some old ->
+  exists new, get (KS (n_id n)) (nodes (fst (apply_put_node c s n))) = Some new /\ n_ws new = n_ws old.
+Proof. intros Hg. apply readd_keeps; [exact Hg|]. apply node_guard_repaired; assumption. Qed.
+End RepairedNode.
